@@ -50,6 +50,8 @@ def main():
             if os.environ.get("TB"): traceback.print_exc()
             continue
         vcs = [E.vcs[d] for d in E.order]
+        if os.environ.get("VC"):
+            vcs = [v for v in vcs if any(x in v.name for x in os.environ["VC"].split(","))]
         solve.discharge(vcs, timeout_ms=tmo)
         bad = [v for v in vcs if v.status != "unsat"]
         print("%s  paths=%d vcs=%d undischarged=%d  %.1fs" % (key, np, len(vcs), len(bad), time.time() - t0))
